@@ -19,10 +19,10 @@ def describe(tier):
         "edges (also forward ones, which close cycles); x every non-empty root subset in every order. Oracle: sort_classes(roots) holds the transitive closure, "
         "each class exactly once, each after everything it depends on; the source assembled by ContextCpu._build_sources has each XOBJ_TYPEDEF block once and "
         "passes gcc -fsyntax-only; the declarations are accepted by cffi.FFI().cdef; a real ctx.add_kernels(kernels={}, extra_classes=roots) for every small "
-        "graph; every cyclic graph raises ValueError." % n,
+        "graph; every cyclic graph raises ValueError; root lists that contain two distinct classes of the same name (the documented override mechanism) emit the last one together with ITS dependencies." % n,
         bounds=dict(max_nodes=n, max_depends_on_edges=2 if tier == "quick" else 3, real_builds="graphs with <= 2 nodes" if tier == "quick" else "graphs with <= 3 nodes (every 7th)"),
         assumptions=["class names are unique inside one graph (xobjects keeps the last class of a name)"],
-        must_fire=["sort", "cycle", "compile", "cdef", "build"],
+        must_fire=["sort", "cycle", "compile", "cdef", "build", "override"],
     )
 
 
@@ -266,6 +266,58 @@ def run_shard(shard, tier, seed):
                         except Exception as e:
                             bad("C14.build", "add_kernels-raises:" + type(e).__name__, g, roots, str(e)[-800:])
             res.states += 1
+            # ---- same-named roots: "in case of multiple classes with the same name, the last one is used" (the override mechanism of
+            # extra_classes): the class emitted for a name and the dependencies collected for it must both be the last one's
+            if not deps and (n <= 2 or tier == "thorough"):
+                for i, k in enumerate(kinds):
+                    if k != "S":
+                        continue
+                    extra = type("XExtra", (xo.Struct,), {"y": xo.Int64})
+                    fields = {"x": xo.Int64, "extra": extra}
+                    for j, how in se[i]:
+                        fields["f%d" % j] = classes[j] if how == "val" else xo.Ref[classes[j]]
+                    override = type(classes[i].__name__, (xo.Struct,), dict(fields, _depends_on=[]))
+                    others = [c for q, c in enumerate(classes) if q != i]
+                    for roots_o, last in (([classes[i], override] + others, override), ([override, classes[i]] + others, classes[i]), (others + [classes[i], override], override)):
+                        res.transitions += 1
+                        res.events["override"] += 1
+                        try:
+                            out = sort_classes(list(roots_o))
+                        except Exception as e:
+                            bad("C14.sort", "override-sort-raises:" + common.exc_failure(e), g, [i], repr(e))
+                            continue
+                        names = [c.__name__ for c in out]
+                        if len(names) != len(set(names)):
+                            bad("C14.once", "class-emitted-twice", g, [i], "same-named roots: emitted %r" % names)
+                            continue
+                        byname = {c.__name__: c for c in out}
+                        if byname.get(classes[i].__name__) is not last:
+                            bad("C14.closure", "override-not-last-class", g, [i], "the class emitted for %s is not the last root of that name" % classes[i].__name__)
+                            continue
+                        if last is override:
+                            if "XExtra" not in names:
+                                bad("C14.closure", "dependency-of-overriding-class-missing", g, [i], "emitted %r: the last class named %s depends on XExtra" % (names, classes[i].__name__))
+                                continue
+                            if names.index("XExtra") > names.index(classes[i].__name__):
+                                bad("C14.order", "dependency-after-use", g, [i], "emitted %r" % names)
+                                continue
+                        # everything every emitted class needs comes before it
+                        pos = {nm: q for q, nm in enumerate(names)}
+                        late = []
+                        for c in out:
+                            for dep in (c._get_inner_types() if hasattr(c, "_get_inner_types") else []) + list(getattr(c, "_depends_on", [])):
+                                if hasattr(dep, "_gen_c_api") and pos.get(dep.__name__, -1) > pos[c.__name__]:
+                                    late.append((c.__name__, dep.__name__))
+                                if hasattr(dep, "_gen_c_api") and dep.__name__ not in pos:
+                                    late.append((c.__name__, dep.__name__ + " (missing)"))
+                        if late:
+                            bad("C14.order", "dependency-after-use", g, [i], "same-named roots: emitted %r; %r" % (names, late[:3]))
+                            continue
+                        try:
+                            cffi.FFI().cdef("\n".join(c._gen_c_decl({}) for c in out))
+                            res.outcomes["ok:override"] += 1
+                        except Exception as e:
+                            bad("C14.cdef", "declarations-rejected:" + type(e).__name__, g, [i], "same-named roots: " + str(e)[:400])
     finally:
         shutil.rmtree(work, ignore_errors=True)
     res.nontrivial = res.states
